@@ -72,14 +72,14 @@ static void sort_case(int which, unsigned seed) {
 int main(int argc, char** argv) {
     if (argc < 5) return 2;
     TR.open(argv[1]); std::string mode = argv[2]; int nseeds = atoi(argv[3]); unsigned long seed0 = strtoul(argv[4], nullptr, 10);
-    long paths = 0, steps = 0, stuck = 0; vh::Timer tm; static const int dens[4] = {1, 3, 10, 40};
+    long paths = 0, steps = 0, stuck = 0; vh::Timer tm; static const int dens[8] = {1, 3, 10, 40, -1, -2, -3, -5};
     auto exec = [&](unsigned long seed, int den, const std::function<void()>& fn) { if (stuck >= 10) return; TR.begin_exec(); Result r = run_in_arena(3, seed, den, 30000000, fn, false); ++paths; steps += r.steps; if (r.rc) ++stuck; };
     int ns[] = {1, 2, 3, 7, 8, 16, 25}; int gs[] = {1, 2, 5};
     for (int s = 0; s < nseeds; s++) {
-        if (mode == "reduce") { for (int n : ns) for (int g : gs) for (int w = 0; w < 5; w++) exec(seed0 + s * 911 + n * 13 + g * 5 + w, dens[(s + w) % 4], [&] { reduce_case(w, n, g); }); }
-        else if (mode == "det") { for (int n : ns) for (int g : gs) exec(seed0 + s * 311 + n * 3 + g, dens[s % 4], [&] { det_case(n, g); }); }
-        else if (mode == "scan") { for (int n : ns) for (int g : gs) for (int p = 0; p < 2; p++) exec(seed0 + s * 71 + n + g + p, dens[s % 4], [&] { scan_case(n, g, p); }); }
-        else { for (int w = 0; w < 7; w++) exec(seed0 + s * 17 + w, dens[s % 4], [&] { sort_case(w, (unsigned)(seed0 + s * 7)); }); }
+        if (mode == "reduce") { for (int n : ns) for (int g : gs) for (int w = 0; w < 5; w++) exec(seed0 + s * 911 + n * 13 + g * 5 + w, dens[(s + w) % 8], [&] { reduce_case(w, n, g); }); }
+        else if (mode == "det") { for (int n : ns) for (int g : gs) exec(seed0 + s * 311 + n * 3 + g, dens[s % 8], [&] { det_case(n, g); }); }
+        else if (mode == "scan") { for (int n : ns) for (int g : gs) for (int p = 0; p < 2; p++) exec(seed0 + s * 71 + n + g + p, dens[s % 8], [&] { scan_case(n, g, p); }); }
+        else { for (int w = 0; w < 7; w++) exec(seed0 + s * 17 + w, dens[s % 8], [&] { sort_case(w, (unsigned)(seed0 + s * 7)); }); }
     }
     TR.close();
     printf("{\"paths\":%ld,\"steps\":%ld,\"stuck\":%ld,\"wall\":%.2f}\n", paths, steps, stuck, tm.s());
